@@ -43,7 +43,7 @@ fn check_vec<T: FV>(
     cx.rep.evals += 1;
     match got {
         Err(p) => cx.rep.mismatch(json!({
-            "prop": "C01", "ty": T::NAME, "op": c["op"], "kind": c["kind"], "spelling": spelling,
+            "prop": hx::prop_name("C01"), "ty": T::NAME, "op": c["op"], "kind": c["kind"], "spelling": spelling,
             "rot": rot, "args": args, "exp": jl(exp), "got": "panic", "panic": p, "case": c})),
         Ok(g) => {
             let gl = g.lanes();
@@ -67,7 +67,7 @@ fn check_vec<T: FV>(
                 }
                 if !eqv(&exp[i], &gf) {
                     cx.rep.mismatch(json!({
-                        "prop": "C01", "ty": T::NAME, "op": c["op"], "kind": c["kind"],
+                        "prop": hx::prop_name("C01"), "ty": T::NAME, "op": c["op"], "kind": c["kind"],
                         "spelling": spelling, "rot": rot, "lane": i, "args": args,
                         "exp": exp[i].to_json(), "got": gf.to_json(), "got_bits": bits(g), "case": c}));
                 }
@@ -90,7 +90,7 @@ fn check_bools<T: FV>(
         cx.rep.lanes_checked += 1;
         if exp[i] != got[i] {
             cx.rep.mismatch(json!({
-                "prop": "C01", "ty": T::NAME, "op": c["op"], "kind": c["kind"], "spelling": spelling,
+                "prop": hx::prop_name("C01"), "ty": T::NAME, "op": c["op"], "kind": c["kind"], "spelling": spelling,
                 "rot": rot, "lane": i, "args": args, "exp": exp[i], "got": got[i], "case": c}));
         }
     }
@@ -191,7 +191,7 @@ fn run_case<T: FV>(cx: &mut Ctx, c: &Value) {
             for (sp, g) in x.eq_(y) {
                 cx.rep.evals += 1;
                 if g != e {
-                    cx.rep.mismatch(json!({"prop": "C01", "ty": T::NAME, "op": op, "kind": kind,
+                    cx.rep.mismatch(json!({"prop": hx::prop_name("C01"), "ty": T::NAME, "op": op, "kind": kind,
                         "spelling": sp, "args": [jl(&la), jl(&lb)], "exp": e, "got": g, "case": c}));
                 }
             }
@@ -232,7 +232,7 @@ fn run_case<T: FV>(cx: &mut Ctx, c: &Value) {
             let g = x.abs_diff_eq_(y, T::S::from_fl(&t));
             cx.rep.evals += 1;
             if g != (e == "t") {
-                cx.rep.mismatch(json!({"prop": "C01", "ty": T::NAME, "op": op, "kind": kind,
+                cx.rep.mismatch(json!({"prop": hx::prop_name("C01"), "ty": T::NAME, "op": op, "kind": kind,
                     "spelling": "method", "args": [jl(&la), jl(&lb), t.to_json()], "exp": e, "got": g, "case": c}));
             }
         }
@@ -288,7 +288,7 @@ fn run_case<T: FV>(cx: &mut Ctx, c: &Value) {
                 true
             };
             if !ok {
-                cx.rep.mismatch(json!({"prop": "C01", "ty": T::NAME, "op": op, "kind": kind,
+                cx.rep.mismatch(json!({"prop": hx::prop_name("C01"), "ty": T::NAME, "op": op, "kind": kind,
                     "spelling": "method", "args": [jl(&la)], "exp": e,
                     "got": format!("{:?}", (x.red_scalar(op), x.red_int(op), x.red_bool(op))), "case": c}));
             }
@@ -331,7 +331,7 @@ fn main() {
     let mut n = 0u64;
     let mut nontriv = 0u64;
     read_cases(&args[1], "CASE", |c| {
-        if c["fam"] != "lane" {
+        if c["fam"] != "lane" || !hx::kind_enabled(c["kind"].as_str().unwrap(), c["op"].as_str().unwrap()) {
             return;
         }
         n += 1;
